@@ -190,6 +190,13 @@ Theorem C02_static_of_trace : forall sx en ms,
 Proof. exact mstatic_of_trace. Qed.
 Print Assumptions C02_static_of_trace.
 
+(* the two hypotheses on ms hold for every list of mark types the emulator builds from the metadata of the
+   threads (mark.c mark_create = MarkDefs.merge_threads), whatever the threads declared *)
+Theorem C02_merged_mark_types : forall ths ms,
+  merge_threads ths = Some ms -> NoDup (map mt_type ms) /\ forall m, In m ms -> 0 <= mt_type m.
+Proof. exact merged_mark_types_fine. Qed.
+Print Assumptions C02_merged_mark_types.
+
 (* the PRV layer never refuses what an accepted handler step offers, as long as the raw channels hold
    values their flags allow and no thread goes back to Unknown (generalises C04's oh_emit_total) *)
 Theorem C02_prv_total : forall sx st ls who ev st1 dirty,
@@ -285,12 +292,23 @@ Proof.
   assert (L : LoaderPre.blen (disk_bytes s) < 2 ^ 63).
   { vm_compute in E. injection E as <- _. vm_compute. reflexivity. }
   destruct (C02_conformant_accepted 64 ex3_ops ex3_clock s log (ex3_sx all_models) all_models ex3_ms ex3_ti [0] []
-              StreamProofs.zero_junk) as (recs & ls & H1 & H2); try (vm_compute; reflexivity); try lia; try exact E; try exact L.
+              StreamProofs.zero_junk) as (recs & ls & H1 & H2).
+  - lia.
+  - lia.
+  - vm_compute. reflexivity.
+  - vm_compute. reflexivity.
+  - vm_compute. reflexivity.
+  - vm_compute. reflexivity.
+  - exact E.
+  - exact L.
   - apply self_in_sublists.
-  - repeat constructor; cbn; intuition discriminate.
-  - intros m [<-|[<-|[]]]; cbn; lia.
-  - cbn. discriminate.
-  - cbn. discriminate.
+  - reflexivity.
+  - reflexivity.
+  - repeat constructor; cbn [map mt_type ex3_ms In]; intuition discriminate.
+  - intros m [<-|[<-|[]]]; cbn [mt_type]; lia.
+  - reflexivity.
+  - vm_compute. discriminate.
+  - vm_compute. discriminate.
   - intros idx [<-|[]]. vm_compute. discriminate.
   - exists s, log, recs, ls. auto.
 Qed.
